@@ -1,4 +1,12 @@
-//! C17 — ops evaluated on the real code and the generator of their inputs.
+//! C17 — results never depend on the number of worker threads or their interleaving.
+//!
+//! C17 has no ops of its own: it re-runs the PARALLEL operations of the other properties
+//! (`ops_complement` / `ops_union` on `al`, `ops_union` on `am` (C11), `gen_complete al` (C14),
+//! `q_degree_sequence` (C02), `pred_semicomplete` (C12), the seeded `am` generators (C15)) on inputs
+//! whose row count is below / equal / just above / far above the thread count and not a multiple of
+//! the chunk size; the orchestrator runs every line under many `taskset` CPU masks, repeated.
+//! Each handler compares with the model called with the observed thread count and with the
+//! single-threaded definition (oracle).
 #![allow(unused_imports, dead_code, clippy::all)]
 
 use crate::graphs::{self, Desc};
@@ -9,4 +17,73 @@ pub fn eval(_op: &str, _args: &[V]) -> Option<Vec<V>> {
     None
 }
 
-pub fn gen(_rng: &mut Rng, _thorough: bool, _emit: &mut dyn FnMut(String)) {}
+/// Orders around every chunking case for thread counts 1..=16.
+fn orders(rng: &mut Rng, thorough: bool) -> Vec<usize> {
+    let mut v: Vec<usize> = (1..=40).collect();
+    v.extend([47, 48, 49, 63, 64, 65, 79, 80, 81, 97, 113, 127, 128, 129, 130]);
+    if !thorough {
+        // quick: every order up to 20 (all thread counts <= 16 crossed), then a spread
+        let mut q: Vec<usize> = (1..=20).collect();
+        q.extend([23, 31, 32, 33, 34, 40, 47, 49, 64, 65, 97, 130]);
+        for _ in 0..4 {
+            q.push(21 + rng.below(110));
+        }
+        return q;
+    }
+    for _ in 0..10 {
+        v.push(41 + rng.below(90));
+    }
+    v
+}
+
+fn desc(rng: &mut Rng, repr: &str, n: usize) -> Desc {
+    let (_, arcs) = graphs::gen_arcs(rng, n);
+    let k = arcs.len();
+    Desc { repr: repr.to_string(), verts: (0..n).collect(), arcs, weights: vec![1; k] }
+}
+
+/// Trailing rows carry arcs (a dropped last chunk must be visible), heads spread over all rows.
+fn desc_tail_heavy(rng: &mut Rng, repr: &str, n: usize) -> Desc {
+    let mut arcs = vec![];
+    for u in 0..n {
+        for v in 0..n {
+            if u != v && (u + 3 >= n || rng.chance(1, 6)) && rng.chance(2, 3) {
+                arcs.push((u, v));
+            }
+        }
+    }
+    rng.shuffle(&mut arcs);
+    let k = arcs.len();
+    Desc { repr: repr.to_string(), verts: (0..n).collect(), arcs, weights: vec![1; k] }
+}
+
+pub fn gen(rng: &mut Rng, thorough: bool, emit: &mut dyn FnMut(String)) {
+    let ns = orders(rng, thorough);
+    for &n in &ns {
+        // AdjacencyList::complete
+        emit(format!("gen_complete al {n}"));
+        // AdjacencyList::complement
+        emit(format!("ops_complement {}", desc(rng, "al", n).to_v()));
+        emit(format!("ops_complement {}", desc_tail_heavy(rng, "al", n).to_v()));
+        // AdjacencyList::degree_sequence / is_semicomplete (C02 / C12 ops)
+        emit(format!("q_par {}", desc_tail_heavy(rng, "al", n).to_v()));
+        emit(format!("q_par {}", desc(rng, "al", n).to_v()));
+        // AdjacencyList::union: equal and different orders (smaller operand ends inside a chunk)
+        let m = 1 + rng.below(n);
+        emit(format!("ops_union {} {}", desc_tail_heavy(rng, "al", n).to_v(), desc_tail_heavy(rng, "al", n).to_v()));
+        emit(format!("ops_union {} {}", desc_tail_heavy(rng, "al", n).to_v(), desc_tail_heavy(rng, "al", m).to_v()));
+        emit(format!("ops_union {} {}", desc_tail_heavy(rng, "al", m).to_v(), desc(rng, "al", n).to_v()));
+        // AdjacencyMap::union: same key set (equal keys at partition boundaries), shifted, sparse
+        if n <= 64 || thorough {
+            emit(format!("ops_union {} {}", desc(rng, "am", n).to_v(), desc(rng, "am", n).to_v()));
+            emit(format!("ops_union {} {}", desc(rng, "am", n).to_v(), desc(rng, "am", m).to_v()));
+            let (_, a) = graphs::gen_am_sparse(rng, 12);
+            let (_, b) = graphs::gen_am_sparse(rng, 12);
+            emit(format!("ops_union {} {}", a.to_v(), b.to_v()));
+        }
+        // seeded AdjacencyMap generators: valid and repeatable within one configuration (C15 ops)
+        let seed = rng.next();
+        emit(format!("rand_tournament am {n} {seed}"));
+        emit(format!("rand_er_p am {n} 0.3 {seed}"));
+    }
+}
